@@ -274,7 +274,9 @@ def run(req):
            'tup': tuple, 'implies': lambda a, b: (not a) or bool(b), 'iff': lambda a, b: bool(a) == bool(b),
            'fst': lambda p: p[0] if isinstance(p, tuple) else list(iter(p))[0],
            'snd': lambda p: p[1] if isinstance(p, tuple) else list(iter(p))[1],
-           'elem': lambda v: v, 'no_default': core.no_default, 'items': lambda v: list(v),
+           'elem': lambda v: v, 'no_default': core.no_default, 'pieces': lambda v: list(v), 'keys': lambda d: list(d.keys()), 'vals': lambda d: list(d.values()),
+           'vals_over': lambda d, ks: [d[k] for k in ks], 'flat_aw': lambda ll: [a for l in ll for a in l],
+           'all_empty': lambda mdl: all(len(m) == 0 for m in mdl),
            'len': len, 'list': list, 'deque': deque}
     for k, v in inp.get('extra', {}).get('ghost', {}).items():
         env[k] = conv(v)
